@@ -42,6 +42,11 @@ SPECS = {
     "qpairs": (dict(widths=(1, 2, 3, 4), arr_elems=_ARR3, arr_counts=(1, 2), upto_widths=(1, 2, 3, 4), slice_widths=(2, 3, 4)), 2),
     "tpairs": (dict(widths=(1, 2, 3, 4, 5, 6), arr_elems=_ARR3, arr_counts=(1, 2), upto_widths=(1, 2, 3, 4, 5, 6),
                     slice_widths=(2, 3, 4, 5, 6)), 2),
+    # canonicity: every OPERATION that yields "K of width n, downto" (casts, slices, msb/lsb, concatenation, operators,
+    # resize, copy, array elements; primitive and qualified) must return the very class K[n] / Q[K[n]] names, in any
+    # order relative to the direct subscriptions and to each other (all ordered pairs)
+    "qcanon": (dict(widths=(1, 2, 3, 4), arr_elems=[], arr_counts=(), upto_widths=(1,), bare=False, atoms=False,
+                    producer_widths=(1, 2, 3, 4)), 2),
     "qroutes": (dict(widths=(2,), arr_elems=[], arr_counts=(), upto_widths=(), route_widths=(2,),
                      qkinds=[("Signal", None), ("Temporary", None), ("Port", "IN"), ("Port", "OUT")]), 3),
     "t3": (dict(widths=(1, 2, 3, 4, 5, 6), arr_elems=_ARR3 + [("S", "D", 3)], arr_counts=(2, 3), upto_widths=(3,)), 3),
@@ -55,8 +60,8 @@ SPECS = {
 for _n in range(1, 7):
     SPECS[f"t4w{_n}"] = (dict(widths=(_n,), arr_elems=[], arr_counts=(), upto_widths=(), atoms=False), 4)
 
-QUICK_SPECS = ["q3", "qarr", "qroutes", "qpairs"]
-THOROUGH_SPECS = ["t3", "troutes", "tpairs", "t4mix", "t4arr"] + [f"t4w{n}" for n in range(1, 7)]
+QUICK_SPECS = ["q3", "qarr", "qroutes", "qpairs", "qcanon"]
+THOROUGH_SPECS = ["t3", "troutes", "tpairs", "qcanon", "t4mix", "t4arr"] + [f"t4w{n}" for n in range(1, 7)]
 
 _spec_cache = {}
 
@@ -310,11 +315,13 @@ def part_pyview(run: Run):
             for kind in ("BV", "U", "S"):
                 for W in (4, 5, 6):
                     tasks += [(q, kind, W, 2, True, i, 4) for i in range(4)]
+                tasks += [(q, kind, W, 2, True, 0, 1) for W in (1, 2, 3)]
             tasks += [(q, "BV", 3, 3, True, i, 4) for i in range(4)]
     else:
         for q in V.QKINDS:
             for kind in ("BV", "U", "S"):
                 tasks += [(q, kind, 4, 2, False, i, 4) for i in range(4)]
+                tasks += [(q, kind, 1, 2, False, 0, 1), (q, kind, 2, 2, False, 0, 1)]
     problems = []
     for kind, res in pmap(work_pyview, tasks, seed=run.seed):
         if kind != "ok":
@@ -342,8 +349,10 @@ def part_pyview(run: Run):
         if run.thorough:
             st += [(q, k, 4, 3, True, i, 4) for k in ("BV", "U", "S") for i in range(4)]
             st += [(q, "BV", 5, 3, False, i, 4) for i in range(4)]
+            st += [(q, k, W, 3, True, 0, 1) for k in ("BV", "U", "S") for W in (1, 2, 3)]
         else:
             st += [(q, "BV", 4, 3, False, i, 2) for i in range(2)]
+            st += [(q, k, W, 3, False, 0, 1) for k in ("BV", "U", "S") for W in (1, 2)]
     for q in arr_q:
         st += [(q, "ARR", 4, 4, run.thorough, i, 2) for i in range(2)]
     for kind, res in pmap(work_pystruct, st, seed=run.seed):
@@ -405,19 +414,28 @@ def work_emit(tasks):
 
 def emit_tasks(run: Run):
     arr_q = [("Signal", None), ("Variable", None)]
-    # (root kind, root width, max chain length, extended operations, qualifier kinds, operation filter)
-    fam = [("BV", 4, 2, False, V.QKINDS, None), ("ARR", 4, 2, False, arr_q, None),
+    typed_q = [("Signal", None), ("Variable", None), ("Port", "IN")]
+    ALL = ("whole", "iter")
+    TYPED = V.TYPED_TERMS  # uses of the view's type: deduced Variable, operator with an operand of the documented type
+    # (root kind, root width, max chain length, extended operations, qualifier kinds, operation filter, terminals)
+    fam = [("BV", 4, 2, False, V.QKINDS, None, ALL), ("ARR", 4, 2, False, arr_q, None, ALL),
            # three stacked plain subscripts x[a:b][c:d][e:f] / x[a:b][c:d][i], also inside an array element
-           ("BV", 4, 3, False, arr_q, V.SUBSCRIPTS), ("ARR", 4, 4, False, arr_q, V.SUBSCRIPTS)]
+           ("BV", 4, 3, False, arr_q, V.SUBSCRIPTS, ALL), ("ARR", 4, 4, False, arr_q, V.SUBSCRIPTS, ALL),
+           # one-bit roots of every kind (K[1] vs K[0:0]) and typed uses of every view
+           ("BV", 1, 2, False, V.QKINDS, None, ALL + TYPED), ("U", 1, 2, False, V.QKINDS, None, ALL + TYPED),
+           ("S", 1, 2, False, V.QKINDS, None, ALL + TYPED), ("BV", 4, 2, False, typed_q, None, TYPED)]
     if run.thorough:
-        fam = [("BV", 4, 2, False, V.QKINDS, None), ("BV", 5, 2, False, V.QKINDS, None), ("BV", 6, 2, False, V.QKINDS, None),
-               ("U", 4, 2, True, V.QKINDS, None), ("S", 4, 2, True, V.QKINDS, None),
-               ("BV", 4, 3, False, arr_q, None), ("ARR", 4, 3, True, arr_q, None),
-               ("BV", 5, 3, False, arr_q, V.SUBSCRIPTS), ("ARR", 4, 4, False, arr_q, V.SUBSCRIPTS)]
+        fam = [("BV", 4, 2, False, V.QKINDS, None, ALL + TYPED), ("BV", 5, 2, False, V.QKINDS, None, ALL),
+               ("BV", 6, 2, False, V.QKINDS, None, ALL),
+               ("U", 4, 2, True, V.QKINDS, None, ALL), ("S", 4, 2, True, V.QKINDS, None, ALL),
+               ("BV", 4, 3, False, arr_q, None, ALL), ("ARR", 4, 3, True, arr_q, None, ALL),
+               ("BV", 5, 3, False, arr_q, V.SUBSCRIPTS, ALL), ("ARR", 4, 4, False, arr_q, V.SUBSCRIPTS, ALL)]
+        for kind in ("BV", "U", "S"):
+            fam += [(kind, 1, 2, True, V.QKINDS, None, ALL + TYPED), (kind, 2, 2, False, V.QKINDS, None, ALL + TYPED)]
     seen = set()
-    for kind, W, maxlen, ext, qs, only in fam:
+    for kind, W, maxlen, ext, qs, only, terms in fam:
         for ch, m in V.chains(kind, W, maxlen, ext, only):
-            for term in ("whole", "iter"):
+            for term in terms:
                 if term == "iter" and m[0] == "Bit":
                     continue
                 for q in qs:
@@ -425,7 +443,7 @@ def emit_tasks(run: Run):
                         continue
                     seen.add((kind, W, ch, term, q))
                     for mode in ("read", "write"):
-                        if mode == "write" and q not in V.WRITABLE:
+                        if mode == "write" and (q not in V.WRITABLE or term in TYPED):
                             continue
                         yield (q, kind, W, ch, term, mode)
 
